@@ -262,7 +262,7 @@ static void checkC12(Ctx& c, long idx, Rng& r) {
                 // point travels over a non-spherical surface) keeps the plain key; anything else is keyed apart.
                 bool explained = std::isfinite(po.shapeTerm) && std::fabs(D + po.reported - po.shapeTerm) <= 10 * tol + 1e-4 * std::fabs(po.shapeTerm);
                 if (std::isfinite(po.shapeTerm)) c.obs(std::string("shape-term:") + (resid <= tol ? "balance-holds" : explained ? "explains-mismatch" : "does-not-explain-mismatch") + ":" + en);
-                c.check("energy-" + en + (resid > tol && !explained ? ":balance-unexplained" : ":balance"), resid, tol,
+                c.check("energy-" + en + (resid > tol && e.hasShapeCoefficient && !explained ? ":balance-unexplained" : ":balance"), resid, tol,
                         [&]() { return W(dirIx < 0 ? "P + dPE/dt != -(reported power dissipation)" : "generalized force != -dPE/dq*N - reported dissipation")().set("shapeTerm", po.shapeTerm); });
             }
             c.check("energy-" + en + ":sign", -po.reported, tol, W("reported power dissipation negative"));
